@@ -843,7 +843,11 @@ impl<'a> Lexer<'a> {
         if let Some(com_token) = self.get_comment()?      { return Ok(com_token) }
         if let Some(bkt_token) = self.get_bracket()?      { return Ok(bkt_token) }
         if let Some(pmt_token) = self.get_primative()     { return Ok(pmt_token) }
-        if let Some(num_token) = self.get_numeric()       { return Ok(num_token) }
+        if let Some(num_token) = self.get_numeric()       {
+            // variable names and repetition counts are parsed as usize further on
+            if num_token.value.parse::<usize>().is_err() { return Err(RuleSyntaxError::NumberTooBig(num_token)) }
+            return Ok(num_token)
+        }
         if let Some(ftr_token) = self.get_feature()?      { return Ok(ftr_token) }
         if let Some(spc_token) = self.get_special_char()? { return Ok(spc_token) }
         if let Some(ipa_token) = self.get_ipa()           { return Ok(ipa_token) }
